@@ -364,7 +364,13 @@ func observeHub(env *Env, chains []string) V {
 		feerec = append(feerec, L(B(string(it.Key())), Z(fr.ValCommission.BigInt()), Z(fr.ExternalFee.BigInt())))
 	}
 	it.Close()
-	return L(Set(sup...), Set(bal...), Set(pool...), Set(batches...), Set(ctr...), Set(status...), Set(feerec...))
+	var toks []V
+	if ti := env.K.GetTokenInfos(ctx); ti != nil {
+		for _, t := range ti.TokenInfos {
+			toks = append(toks, tokenVal(t))
+		}
+	}
+	return L(Set(sup...), Set(bal...), Set(pool...), Set(batches...), Set(ctr...), Set(status...), Set(feerec...), Set(toks...))
 }
 
 var _ = banktypes.ModuleName
